@@ -641,7 +641,18 @@ fn stress_case(cx: &mut Cx) {
     let millis = cx.tier.pick(1200u64, 4000);
     let exe = std::env::current_exe().expect("exe");
     let mut kids = vec![];
-    for w in 0..writers {
+    // every other stress run: the writers are threads of THIS process (several stores of one process flushing to one file:
+    // a node and the client code it embeds, or concurrent tasks of one node), the rest are separate processes
+    let in_process = (cx.index / 25) % 2 == 1;
+    let mut threads: Vec<std::thread::JoinHandle<(u64, u64)>> = vec![];
+    if in_process {
+        cx.count("stress-runs-with-in-process-writers");
+        for w in 0..writers {
+            let (p2, seed) = (path.clone(), cx.seed.wrapping_add(cx.index * 100 + w as u64));
+            threads.push(std::thread::spawn(move || writer_loop(&p2, seed, millis)));
+        }
+    }
+    for w in 0..(if in_process { 0 } else { writers }) {
         let k = std::process::Command::new(&exe)
             .args(["C18", "--aux", &format!("writer:{}:{}:{}", path.display(), cx.seed.wrapping_add(cx.index * 100 + w as u64), millis)])
             .stdout(std::process::Stdio::null())
@@ -690,6 +701,12 @@ fn stress_case(cx: &mut Cx) {
         cx.eval();
     }
     let mut writes = 0u64;
+    for t in threads {
+        if let Ok((w, errs)) = t.join() {
+            writes += w;
+            cx.count_n("writer-flush-errors", errs);
+        }
+    }
     for k in kids {
         let out = k.wait_with_output();
         if let Ok(o) = out {
@@ -731,24 +748,33 @@ pub fn aux_main(spec: &str) -> i32 {
     let path = PathBuf::from(parts[1]);
     let seed: u64 = parts[2].parse().unwrap_or(0);
     let millis: u64 = parts[3].parse().unwrap_or(1000);
+    let (writes, errors) = writer_loop(&path, seed, millis);
+    for _ in 0..errors {
+        eprintln!("writer-error");
+    }
+    eprintln!("writes={writes}");
+    0
+}
+
+/// one writer: new store, a few additions, flush onto the shared file; repeated for `millis`. Returns (flushes, errors).
+fn writer_loop(path: &std::path::Path, seed: u64, millis: u64) -> (u64, u64) {
     let mut rng = StdRng::seed_from_u64(seed);
-    let cfg = BootstrapCacheConfig::empty().with_cache_path(&path).with_max_peers(20).with_addrs_per_peer(3);
+    let cfg = BootstrapCacheConfig::empty().with_cache_path(path).with_max_peers(20).with_addrs_per_peer(3);
     let peers: Vec<PeerId> = (0..30).map(|_| peer(&mut rng)).collect();
     let start = std::time::Instant::now();
-    let mut writes = 0u64;
+    let (mut writes, mut errors) = (0u64, 0u64);
     while start.elapsed() < Duration::from_millis(millis) {
-        let Ok(mut store) = BootstrapCacheStore::new(cfg.clone()) else { return 2 };
+        let Ok(mut store) = BootstrapCacheStore::new(cfg.clone()) else { return (writes, errors + 1) };
         for _ in 0..rng.gen_range(1..6) {
             let (a, _) = random_addr(&mut rng, &peers);
             store.add_addr(a);
         }
         match store.sync_and_flush_to_disk(rng.gen_bool(0.7)) {
             Ok(()) => writes += 1,
-            Err(e) => eprintln!("writer-error {e:?}"),
+            Err(_) => errors += 1,
         }
     }
-    eprintln!("writes={writes}");
-    0
+    (writes, errors)
 }
 
 impl Check for C18 {
@@ -758,7 +784,7 @@ impl Check for C18 {
     fn rule(&self) -> String {
         "history cases: 20-80 operations (add_addr over 12 multiaddr shapes incl. relayed / peer-id-first / tcp+udp / ip6 / dns / no peer id, status updates, removals, clean-ups, sync_and_flush with and without clean-up) on two stores sharing one cache file with limits max_peers 1-8 and max_addrs 1-4; after every operation bounds, address form, merge superset, save->load equality modulo clean-up are judged; \
          then one CacheData-level merge + clean-up with arbitrary timestamps/counters (expired, boundary, future-dated, saturated counters) and six corrupt / foreign / hostile-number files (load must not panic; flushing over them must leave a loadable file). \
-         Every 25th case is a multi-process stress run: 4 (thorough: 10) writer processes flushing to one file while the case reloads it continuously. \
+         Every 25th case is a stress run: 4 (thorough: 10) writers - separate processes, or (every other run) threads of one process - flushing to one file while the case reloads it continuously. \
          Non-trivial: a history that flushed, used >= 5 address shapes and reached the peer limit; a clean-up that faced expired entries; each distinct corrupt file; a stress run with > 100 successful loads, > 20 writes and > 5 distinct file contents observed."
             .into()
     }
